@@ -53,7 +53,7 @@ CHECKS = {
                       'exception classes of botocore/requests/urllib3/aiodocker/google are import stubs here and are not '
                       'exercised; sync_retry_transient_errors and gear.database.retry_transient_mysql_errors are not '
                       'covered by this scenario. Back-off is checked to 2 us.',
-        'scenarios': [{'module': 'worlds.prims.retry', 'quick': 40000, 'thorough': 1200000}],
+        'scenarios': [{'module': 'worlds.prims.retry', 'quick': 40000, 'thorough': 2500000}],
         'expected_probes': ['limited_sixth_failure_raised', 'limited_within_five_retried', 'chained_cause_transient',
                             'delay_capped', 'delay_pinned_to_max', 'rate_limit_retried', 'permanent_after_retries',
                             'permanent_raised_first_try', 'success_after_retries', 'long_sequence',
